@@ -35,6 +35,20 @@ CASES = {
         bad=["str", 1.5, 1 << 33],
         other={"type": "record", "name": "Other", "fields": [{"name": "q", "type": "long"}]},
     ),
+    # failures of other exception classes, each after part of the record has been encoded
+    "exotic": dict(
+        schema={"type": "record", "name": "X", "fields": [
+            {"name": "a", "type": "int"}, {"name": "f", "type": "float"},
+            {"name": "m", "type": {"type": "map", "values": "int"}},
+            {"name": "ds", "type": {"type": "array", "items": "double"}}]},
+        good=[{"a": 1, "f": 1.5, "m": {}, "ds": []}, {"a": 2, "f": -2.0, "m": {"k": 1}, "ds": [0.5]}],
+        bad=[{"a": 1, "f": 3.5e38, "m": {}, "ds": []},          # OverflowError (binary32 range)
+             {"a": 1, "f": 1.0, "m": [1, 2], "ds": []},          # AttributeError (list where a map is expected)
+             {"a": 1, "f": 1.0, "m": {}, "ds": [1.0, "x"]},      # struct.error
+             {"a": 1, "f": 1.0, "m": {"k": "v"}, "ds": []},      # TypeError/ValueError
+             {"a": 1, "f": 1.0, "m": {}}],                        # missing field
+        other="long",
+    ),
     "nested": dict(
         schema={"type": "record", "name": "N", "fields": [
             {"name": "xs", "type": {"type": "array", "items": "int"}},
